@@ -71,7 +71,7 @@ def tasks_for(pid, tier, seed):
                       what="is_cfg_enabled of a query parameter with %d stacked #[cfg] attributes is the conjunction of their truth values" % n))
     if pid in ("C10", "C04"):
         t.append(dict(kind="unwind", dbg=True, features=(), name="unwind:Storage::clone",
-                      what="MIR path fact: on the unwind edge of every user Clone::clone call inside Storage{N}::clone only RefCell guards are dropped (no partially initialised storage); confirmed natively by a Clone that panics at its k-th call"))
+                      what="MIR path facts: on the unwind edge of every user Clone::clone call inside Storage{N}::clone only RefCell guards are dropped (no partially initialised storage), and unwinding out of a component destructor inside DataPtr::drop_to drops nothing in that frame again; confirmed natively by a Clone / a Drop that really panics at its k-th call"))
     if pid == "C15":
         def ids(k, c, arch_cfg, comp_cfg, label, stack=False):
             t.append(dict(kind="ids", k=k, c=c, arch_cfg=arch_cfg, comp_cfg=comp_cfg, stack=stack, name="ids:%s" % label,
@@ -148,6 +148,28 @@ def _short(names):
     return sorted(set(re.sub(r'<impl at [^>]*>', '<impl>', n) for n in names))
 
 
+def _unwind_drops(it, start):
+    """All `drop(_n)` statements reachable along the cleanup chain that starts at block `start`
+    (drop / goto / switchInt on drop flags are followed; every branch is taken)."""
+    dropped, seen, todo = [], set(), [start]
+    while todo:
+        cur = todo.pop()
+        if not cur or cur in seen:
+            continue
+        seen.add(cur)
+        for s2 in it.blocks.get(cur, []):
+            d = re.match(r"drop\((_\d+)\) -> \[return: (bb\d+)", s2)
+            if d:
+                dropped.append((d.group(1), it.locals.get(d.group(1), "?"))); todo.append(d.group(2))
+            g = re.match(r"goto -> (bb\d+)", s2)
+            if g:
+                todo.append(g.group(1))
+            sw = re.match(r"switchInt\(.*\) -> \[(.*)\]", s2)
+            if sw:
+                todo.extend(re.findall(r"bb\d+", sw.group(1)))
+    return dropped
+
+
 def run_task(task, mir_path, validate_n):
     import z3
     from .mirsym import smt, kernels_ob, macros_ob, macrosym, kernel
@@ -185,21 +207,31 @@ def run_task(task, mir_path, validate_n):
                         m = re.match(r"_\d+ = <T\d+ as Clone>::clone\(.*\) -> \[return: bb\d+, unwind: (bb\d+)\]", st)
                         if not m:
                             continue
-                        cur = m.group(1); seen = set(); dropped = []
-                        while cur and cur not in seen:
-                            seen.add(cur); nxt = None
-                            for s2 in it.blocks.get(cur, []):
-                                d = re.match(r"drop\((_\d+)\) -> \[return: (bb\d+)", s2)
-                                if d:
-                                    dropped.append((d.group(1), it.locals.get(d.group(1), "?"))); nxt = d.group(2)
-                                g = re.match(r"goto -> (bb\d+)", s2)
-                                if g:
-                                    nxt = g.group(1)
-                            cur = nxt
+                        dropped = _unwind_drops(it, m.group(1))
                         facts.append((it.header[:80], st[:60], dropped))
                         for loc, ty in dropped:
                             if not re.match(r"(std::cell::)?(Ref|RefMut)<", ty):
                                 bad_facts.append("%s: unwinding out of `%s` drops %s: %s" % (re.search(r"Storage\d+", it.header).group(0), st.split(" = ")[1][:40], loc, ty[:80]))
+            # second fact: DataPtr::drop_to (the loop `Storage::drop` runs over every column) — unwinding out of a
+            # component's destructor must not drop anything in that frame again (a "keep dropping" guard that restarts at
+            # the panicking element would drop it twice); confirmed natively by a Drop that really panics at its k-th call
+            drop_bad = []
+            for it in M.items:
+                if it.kind != "fn" or not it.name.endswith("::drop_to") or "DataPtr<" not in it.header:
+                    continue
+                res["functions"].append(re.sub(r"<impl at [^>]*>", "<impl>", it.name))
+                for bb, sts in it.blocks.items():
+                    for st in sts:
+                        m = re.match(r"_\d+ = (?:std::ptr::)?drop_in_place::<T>\(.*\) -> \[return: bb\d+, unwind(?:: (bb\d+)| continue)\]", st)
+                        if not m:
+                            continue
+                        dropped = _unwind_drops(it, m.group(1))
+                        facts.append((it.header[:80], st[:60], dropped))
+                        for loc, ty in dropped:
+                            drop_bad.append("DataPtr::drop_to: unwinding out of `%s` drops %s: %s" % (st.split(" = ")[1][:40], loc, ty[:80]))
+            if drop_bad and not bad_facts:
+                bad_facts = drop_bad
+                res["native_harness_override"] = "c10::c10_native_drop_panics_at_k"
             res["paths"] = len(facts)
             res["queries"] = len(facts)
             res["samples"] = [{"call": f[1], "dropped_on_unwind": [t_ for _, t_ in f[2]]} for f in facts[:2]]
@@ -207,7 +239,7 @@ def run_task(task, mir_path, validate_n):
                 res["verdict"] = "inconclusive"; res["reason"] = "no Clone::clone call found in Storage::clone MIR"
             elif bad_facts:
                 res["verdict"] = "violation"; res["reason"] = bad_facts[0]; res["n_violated"] = len(bad_facts)
-                res["native_harness"] = "c10::c10_native_clone_panics_at_k"
+                res["native_harness"] = res.pop("native_harness_override", "c10::c10_native_clone_panics_at_k")
             else:
                 res["verdict"] = "holds"
             res["wall_s"] = time.time() - t0
